@@ -123,4 +123,13 @@ def run(chk):
     pk = ['pkt =' + bytes(rng.randrange(256) for _ in range(rng.choice([0, 1, 13, 14, 18, 34, 60, 120]))).hex() for _ in range(500)]
     ipk = impl_run(chk.harness, pk, timeout=20.0)
     judge(pk, ipk, 'ParsePacket random bytes')
+    # ParsePacket on structured frames (the C10 generator: VLAN / MPLS / IPv4 / IPv6 + extension headers /
+    # tunnels / L4) captured at EVERY length: random bytes almost never reach the inner layer parsers
+    cuts = []
+    for a, _ in model_gen('C10', 0, chk.seed + 21, 0, dict(quick=60, thorough=1500)[chk.tier]):
+        _, d = payload_of(a)
+        cuts += ['pkt =' + d[:k].hex() for k in range(len(d) + 1)]
+    icut = impl_run(chk.harness, cuts, timeout=60.0)
+    judge(cuts, icut, 'ParsePacket on model frames at every capture length')
+    chk.exhaustive.append('every capture length of %d model frames: %d parses' % (dict(quick=60, thorough=1500)[chk.tier], len(cuts)))
     return chk.finish(me)
